@@ -13,6 +13,7 @@ def run(ctx):
     engine_corr.campaign(ctx, {"C10"})
     planlevel.plan_campaign(ctx, {"C10"})
     overlap(ctx)
+    uneven_durations(ctx)
     stale_check_limit(ctx)
     import retry_corr
     retry_corr.run_retry(ctx)       # real create_retry / run(retry=...) vs Engine/Retry.v
@@ -180,3 +181,45 @@ def large_error_limits(ctx):
                 ctx.fail("large-limit", "max_errors=%d, max_workers=%d, %d independent failing calls: %d failed (run %s); %s"
                          % (k, workers, n, count[0], oc, "exactly %d expected" % min(k + 1, n) if workers == 1 else "between %d and %d expected" % (k + 1, k + workers)),
                          {"max_errors": k, "max_workers": workers, "failing_calls": n, "failed": count[0]})
+
+
+def uneven_durations(ctx):
+    """n independent calls, max_workers = w >= 2: the call that happens to start first does not finish until all the others have finished.
+    The other w-1 workers must get every remaining ready call (a ready call must never sit behind a running one while a worker is idle)."""
+    import threading
+    import time
+    uberjob = core.use_repo()
+    for n in (5, 9, 17):
+        for w in (2, 3):
+            for scheduler in (None, "random", "cheap") if hasattr(uberjob, "run") else ():
+                lock = threading.Lock()
+                state = {"first": None, "done": 0, "timed_out": False}
+                others_done = threading.Event()
+
+                def f(i):
+                    with lock:
+                        first = state["first"] is None
+                        if first:
+                            state["first"] = i
+                    if first:
+                        if not others_done.wait(4):
+                            state["timed_out"] = True
+                    else:
+                        time.sleep(0.002)
+                        with lock:
+                            state["done"] += 1
+                            if state["done"] == n - 1:
+                                others_done.set()
+                    return i
+                plan = uberjob.Plan()
+                calls = [plan.call(f, i) for i in range(n)]
+                ctx.case(("c10-uneven-durations", n, w, scheduler))
+                try:
+                    kw = {} if scheduler == "cheap" else {"scheduler": scheduler}
+                    res = core.call_watched(lambda: uberjob.run(plan, output=calls, max_workers=w, progress=None, **kw), timeout=30)
+                except BaseException as e:      # noqa
+                    res = "raised %s" % type(e).__name__
+                if state["timed_out"] or res != list(range(n)):
+                    ctx.fail("parallelism:ready-call-waits-behind-a-running-one", "%d independent calls, max_workers=%d, scheduler=%r: the first call waited for the others to finish; after 4 s "
+                             "only %d of the other %d had run although %d worker(s) were idle; run gave %r" % (n, w, scheduler, state["done"], n - 1, w - 1, res),
+                             {"calls": n, "max_workers": w, "scheduler": scheduler})
